@@ -345,7 +345,7 @@ impl Property for P {
             .boxed()
     }
     fn cases(&self, tier: Tier) -> u32 {
-        tier.pick(8000, 120000)
+        tier.pick(30000, 300000)
     }
     fn sweeps(&self, _tier: Tier) -> Vec<(String, Vec<Case>)> {
         let mut constructed = Vec::new();
